@@ -49,7 +49,7 @@ class Layout(object):
              'hash_in_str', 'paren_under', 'str_bs_nl', 'semicolon', 'ifblock', 'lambda1', 'lambdas_line',
              'lambda_multiline', 'nested_def', 'triple_bs_end', 'comment_bs_then_str', 'dict_multiline',
              'nested_lambda', 'same_sig_lambdas', 'call_continuation', 'fstring_indented', 'lambda_semicolon',
-             'bytes_indented', 'str_bs_nl_indented', 'str_bs_nl_indented']
+             'bytes_indented', 'str_bs_nl_indented', 'str_bs_nl_indented', 'exotic_linebreak_in_string']
     if self.features:
       feats = [f for f in feats if f in self.features]
     f = rng.choice(feats)
@@ -120,6 +120,15 @@ class Layout(object):
       self.emit(d, "s%d = 'head \\" % n)
       self.emit(d + rng.choice([0, 1, 2]), "  second line \\")
       self.emit(d + rng.choice([0, 1]), "third'")
+    elif f == 'exotic_linebreak_in_string':
+      # characters str.splitlines() treats as line ends but the tokenizer does not, inside a multi-line literal
+      ch = rng.choice(['\x0b', '\x0c', '\x1c', '\x1d', '\x1e', '\x85', '\u2028', '\u2029'])
+      self.emit(d, 's%d = """head' % n + ch + 'same physical line')
+      self.emit(d, 'second line, indented like the block')
+      self.emit(d + 1, 'third' + ch + ch + 'line"""')
+      if rng.random() < 0.5:
+        self.emit(d, '# comment with' + ch + ' such a character')
+        self.emit(d, 'y%d = 7' % n)
     elif f == 'semicolon':
       self.emit(d, 'x%d = 1; y%d = 2' % (n, n))
     elif f == 'ifblock':
